@@ -252,6 +252,11 @@ CRASH_PROBES = [
                       ("typeless-checksum", "cs @calculatedFrom(\"X\"),"),
                       ("length-inside", "l @lengthOf(b),\n        A b,"),
                       ("pad-on-scalar", "u8 a,")]
+] + [
+    # valid, acyclic, but every packet is reachable over MANY paths: 4^20 if fully explored packets are not remembered
+    ("layers-shared-target", "root packet L0 {\n    u8 k,\n    match k as body {\n        [1, 2, 3, 4] : L1,\n    },\n}\n" +
+     "".join("packet L%d {\n    u8 k,\n    match k as body {\n        [1, 2, 3, 4] : L%d,\n    },\n}\n" % (i, i + 1) for i in range(1, 21)) +
+     "packet L21 {\n    u8 x,\n}\n"),
 ] + [("refmeta-chain", "MetaData M {\n    Zz B `b`,\n    B C `c`,\n}\nroot packet P {\n    C x,\n    C @calculatedFrom(\"X\"),\n}\n"),
      ("huge-fixed-63", "root packet P {\n    char[9000000000000000000] a,\n}\n"),
      ("huge-fixed-32", "root packet P {\n    char[4294967296] a,\n    zchar[2147483648] b,\n}\n"),
